@@ -207,6 +207,24 @@ PROPS["C14"] = {
     "units": [
         {"name": "hostile-ta", "pkg": RESMGR, "run": "^TestVerifC14TA$", "replay_run": "^TestVerifC14Replay$", "q": 300, "t": 60000, "per_proc": 600},
         {"name": "hostile-balloons", "pkg": RESMGR, "run": "^TestVerifC14Balloons$", "replay_run": "^TestVerifC14Replay$", "q": 300, "t": 60000, "per_proc": 600},
+        {"name": "memory-qos", "pkg": "./cmd/plugins/memory-qos", "run": "^TestVerifSideMemoryQos$", "replay_run": "^TestVerifSideMemoryQosReplay$", "q": 1500, "t": 160000},
+        {"name": "memtierd", "pkg": "./cmd/plugins/memtierd", "run": "^TestVerifSideMemtierd$", "replay_run": "^TestVerifSideMemtierdReplay$", "q": 1500, "t": 160000},
+        {"name": "sgx-epc", "pkg": "./cmd/plugins/sgx-epc", "run": "^TestVerifSideSgxEpc$", "replay_run": "^TestVerifSideSgxEpcReplay$", "q": 1500, "t": 160000},
     ],
     "floor_q": 20, "floor_t": 1000,
+}
+
+PROPS["C18"] = {
+    "level": "exploration",
+    "technique": "rapid-generated annotation maps (all subsets of the three forms per key, container names that are prefixes/suffixes of each other or contain separators, annotations for other containers), each evaluated 6-8 times with the map rebuilt in different insertion orders; oracle = reference precedence written from the plugins' documentation",
+    "rule": "subjects: resource-policy cache GetEffectiveAnnotation (through a real cache), sgx-epc parseEpcLimit/CreateContainer, memory-qos and memtierd CreateContainer (Unified map) with generated classes and configuration; "
+            "non-trivial = at least two forms (container-specific, pod-wide, bare) present for the same key; distinct = hash of the case",
+    "assumptions": ["Go randomises map iteration per range statement: repeating each evaluation over maps rebuilt in opposite insertion orders samples iteration orders, it does not enumerate them"],
+    "units": [
+        {"name": "cache", "pkg": "./pkg/resmgr/cache", "run": "^TestVerifC18Cache$", "replay_run": "^TestVerifC18CacheReplay$", "q": 2000, "t": 320000},
+        {"name": "memory-qos", "pkg": "./cmd/plugins/memory-qos", "run": "^TestVerifSideMemoryQos$", "replay_run": "^TestVerifSideMemoryQosReplay$", "q": 2000, "t": 320000},
+        {"name": "memtierd", "pkg": "./cmd/plugins/memtierd", "run": "^TestVerifSideMemtierd$", "replay_run": "^TestVerifSideMemtierdReplay$", "q": 2000, "t": 320000},
+        {"name": "sgx-epc", "pkg": "./cmd/plugins/sgx-epc", "run": "^TestVerifSideSgxEpc$", "replay_run": "^TestVerifSideSgxEpcReplay$", "q": 2000, "t": 320000},
+    ],
+    "floor_q": 100, "floor_t": 5000,
 }
